@@ -336,4 +336,137 @@ def closeHistory : List (String × List String) → List Node → List Node
   | (name, direct) :: rest, done =>
     closeHistory rest (done ++ [{ name := name, inherits := direct.foldl (inhStep done) [] }])
 
+
+/-! ### instances: slot states and the operations of an instance load form -/
+
+/-- the state of one slot of an instance -/
+inductive Slot where
+  | unbound
+  | bound (v : Obj)
+  deriving DecidableEq, Repr
+
+/-- one operation of an instance load form: `(setf (slot-value inst 's) form)` or
+    `(slot-makunbound inst 's)` -/
+inductive SlotOp where
+  | set (form : Obj)
+  | makunbound
+  deriving DecidableEq, Repr
+
+def lookupS {α : Type} (k : String) : List (String × α) → Option α
+  | [] => none
+  | (k', x) :: rest => if k' = k then some x else lookupS k rest
+
+/-- the operation the load form needs for a slot in state `st` when make-instance leaves the slot
+    in state `fresh` (the default of the class, or unbound): a bound slot — nil included — is set
+    to the load form of its value whatever the default is; an unbound slot must be made unbound
+    when the class gives it a default -/
+def slotOpFor (fresh : Option Slot) : Slot → Option SlotOp
+  | .bound v => some (.set (loadForm v))
+  | .unbound =>
+    match fresh with
+    | some (.bound _) => some .makunbound
+    | _ => none
+
+/-- the load form of an instance: for every slot the operation it needs (possibly none) -/
+def instanceLoadOps (fresh slots : List (String × Slot)) : List (String × Option SlotOp) :=
+  slots.map fun (s, st) => (s, slotOpFor (lookupS s fresh) st)
+
+/-- the variant that leaves out slots holding nil (as if a fresh instance had nil there) -/
+def instanceLoadOpsSkipNil (fresh slots : List (String × Slot)) : List (String × Option SlotOp) :=
+  slots.map fun (s, st) => (s, if st = .bound .nil then none else slotOpFor (lookupS s fresh) st)
+
+def opOf (ops : List (String × Option SlotOp)) (s : String) : Option SlotOp :=
+  match lookupS s ops with
+  | some o => o
+  | none => none
+
+/-- the effect of the operations on one slot of a fresh instance -/
+def rebuildSlot (init : Slot) : Option SlotOp → Except Err Slot
+  | none => .ok init
+  | some .makunbound => .ok .unbound
+  | some (.set form) => (eval form).map .bound
+
+/-- evaluate an instance load form on a fresh instance -/
+def rebuildInstance (fresh : List (String × Slot)) (ops : List (String × Option SlotOp)) :
+    Except Err (List (String × Slot)) :=
+  fresh.mapM fun (s, init) => (rebuildSlot init (opOf ops s)).map fun st => (s, st)
+
+/-! ### flavors: effective defaults and the instance variables of a flavor load form -/
+
+/-- a defined flavor: everything it inherits in precedence order (flattened) and its EFFECTIVE
+    default of every instance variable (own declarations and inherited ones) -/
+structure Flav where
+  name : String
+  inherits : List String
+  defaults : List (String × Obj)
+  deriving DecidableEq, Repr
+
+def findFlav (w : List Flav) (n : String) : Option Flav := w.find? (·.name == n)
+
+/-- add the entries of `more` whose variable is not yet present (Flavor.inheritFlavor) -/
+def mergeMissing (acc : List (String × Obj)) : List (String × Obj) → List (String × Obj)
+  | [] => acc
+  | (v, d) :: rest =>
+    match lookupS v acc with
+    | some _ => mergeMissing acc rest
+    | none => mergeMissing (acc ++ [(v, d)]) rest
+
+/-- the defaults of the inherited flavor `n` (none when it is not defined) -/
+def flavDefaults (w : List Flav) (n : String) : List (String × Obj) :=
+  match findFlav w n with
+  | some f => f.defaults
+  | none => []
+
+/-- effective defaults of a flavor declared with `own` that inherits `inh` (precedence order) -/
+def effective (w : List Flav) (own : List (String × Obj)) (inh : List String) : List (String × Obj) :=
+  inh.foldl (fun acc n => mergeMissing acc (flavDefaults w n)) own
+
+/-- what inheritance alone gives for a variable: the default of the FIRST inherited flavor, in
+    precedence order, that has the variable -/
+def inheritedDefault (w : List Flav) : List String → String → Option Obj
+  | [], _ => none
+  | n :: rest, v =>
+    match lookupS v (flavDefaults w n) with
+    | some d => some d
+    | none => inheritedDefault w rest v
+
+/-- the instance variables written in the load form of a flavor: the entries of its effective
+    defaults that differ from what inheritance alone would give -/
+def flavorLoadVars (w : List Flav) (f : Flav) : List (String × Obj) :=
+  f.defaults.filter fun (v, d) => inheritedDefault w f.inherits v != some d
+
+/-- the variant "some inherited flavor has an equal default" -/
+def anyAncestorEqual (w : List Flav) (inh : List String) (v : String) (d : Obj) : Bool :=
+  inh.any fun n => lookupS v (flavDefaults w n) == some d
+
+def flavorLoadVarsAny (w : List Flav) (f : Flav) : List (String × Obj) :=
+  f.defaults.filter fun (v, d) => !anyAncestorEqual w f.inherits v d
+
+/-- defflavor: flatten the direct components (the component, then what it inherits) and compute
+    the effective defaults -/
+def flattenFlavs (w : List Flav) (direct : List String) : List String :=
+  direct.foldl (fun acc d =>
+    match findFlav w d with
+    | some f => f.inherits.foldl addUnique (addUnique acc d)
+    | none => acc) []
+
+def defFlavor (w : List Flav) (name : String) (own : List (String × Obj)) (direct : List String) : Flav :=
+  let inh := flattenFlavs w direct
+  { name := name, inherits := inh, defaults := effective w own inh }
+
+/-- a session of defflavor forms -/
+def defFlavors : List (String × List (String × Obj) × List String) → List Flav → List Flav
+  | [], w => w
+  | (name, own, direct) :: rest, w => defFlavors rest (w ++ [defFlavor w name own direct])
+
+/-- reload: every flavor defined again, in the order of the world, from its load form (instance
+    variables = `vars o f`, computed in the original world `o` of the flavors before `f`;
+    components = the flattened inherit list). `w` is the world rebuilt so far. -/
+def reloadFlavors (vars : List Flav → Flav → List (String × Obj)) :
+    List Flav → List Flav → List Flav → List Flav
+  | _, w, [] => w
+  | o, w, f :: rest =>
+    reloadFlavors vars (o ++ [f])
+      (w ++ [{ name := f.name, inherits := f.inherits, defaults := effective w (vars o f) f.inherits }]) rest
+
 end SlipVerif.LoadForm
